@@ -60,6 +60,8 @@ impl<'a> Remote<'a> {
         shared.pending.fetch_add(1, Ordering::Release);
 
         let mut notified = false;
+        #[cfg(feature = "verif")]
+        crate::verif::point(11);
         while shared.sync.push(self.header().id).is_err() {
             if !notified && let Some(ref waker) = shared.waker {
                 waker.wake_by_ref();
@@ -73,6 +75,8 @@ impl<'a> Remote<'a> {
                 crate::yield_now()
             }
         }
+        #[cfg(feature = "verif")]
+        crate::verif::point(12);
         if !notified && let Some(ref waker) = shared.waker {
             waker.wake_by_ref();
         }
